@@ -24,7 +24,8 @@ BOOKKEEPING = ("_retries", "X-Taskiq-requeue")
 def gen_label_value(rng: random.Random) -> Any:
     t = rng.choice(["int", "float", "bool", "str", "bytes"])
     if t == "int":
-        return rng.choice([0, 1, -1, 42, 2 ** 63, -(2 ** 64), 2 ** 4000, -(2 ** 3999) + 7, 10 ** 18, rng.randint(-10 ** 9, 10 ** 9)])
+        return rng.choice([0, 1, -1, 42, 2 ** 63, -(2 ** 64), 2 ** 4000, -(2 ** 3999) + 7, 10 ** 18, rng.randint(-10 ** 9, 10 ** 9),
+                           2 ** 53 + 1, 1727500000123456789, -(2 ** 62) - 3])
     if t == "float":
         return rng.choice([0.0, -0.0, 1.5, -2.25, 1e308, 5e-324, 2.2250738585072014e-308, float("inf"), float("-inf"),
                            float("nan"), 0.1, 1e-7, 123456789.123456789, rng.random() * 10 ** rng.randint(-20, 20)])
@@ -32,7 +33,9 @@ def gen_label_value(rng: random.Random) -> Any:
         return rng.random() < 0.5
     if t == "str":
         return rng.choice(["", "a", "True", "false", "12", "1.5", "ünï©ødé ∆ 𝄞", "line\nbreak", "\x00\x7f", " sp ", "null",
-                           "a" * 500, "‮ rtl", "tab\t\"q\"\\", "cut \ud83d", "\udc00x"])
+                           "a" * 500, "‮ rtl", "tab\t\"q\"\\", "cut \ud83d", "\udc00x",
+                           # text that is not in a unicode normal form (decomposed accents, compatibility characters)
+                           "Ame\u0301lie", "10 k\u2126", "1 \u212b", "\uf900", "\u1112\u1161\u11ab", "\ufb01n"])
     return rng.choice([b"", b"a", b"\x00", b"\xff\xfe\x00", b"utf8 ok", "ü".encode(), bytes(range(256)), b"=" * 7])
 
 
